@@ -20,6 +20,7 @@ import (
 	_ "verif/checks/c13"
 	_ "verif/checks/c15"
 	_ "verif/checks/c16"
+	_ "verif/checks/c18"
 	_ "verif/checks/c19"
 )
 
